@@ -39,6 +39,9 @@ ONLY_CORRESPONDENCE = [
 
 HOSTILE = [" ", "@", "/", "%", "&", "=", "+", "?", "#", ";", "'", '"', "\x00", "é", "€", "😀", "\xa0", "　", "%41", "%2F", "%zz", "a", "Z", "0", "-", "_", ".",
            "~", "\t", "\n", "\\", "<", "[", "]", "{", "|", "^", "`", "\x7f", "\x1f", "\x85", "ß", "İ", "x", "user", "example.org", "%", "%%", "%C3", " ", "�", "ı"]
+# text that Unicode normalisation would rewrite (decomposed accents, conjoining jamo, singleton and compatibility characters): labels and issuers are
+# opaque text, the spelling that went in must come back
+HOSTILE += ["e\u0301", "A\u030a", "\u1100\u1161", "\u212b", "\u2126", "\ufb01", "\u00c5", "\u0344", "\u1e9b\u0323"]
 ALGS = ["sha1", "sha256", "sha512", "sha224", "sha384", "sha3_256", "blake2b", "md5", "sha512_256", "ripemd160"]
 TIMES = [0, 59, 1111111109, 2 ** 33 + 7]
 
